@@ -34,6 +34,7 @@ class Shared:
         self.entered_counts = {}
         self.lines_covered = set()
         self.concrete_dims = None
+        self.dim_scheme = "consecutive"
         self.used_dims = set()
         self.all_cands = {}
 
@@ -196,21 +197,38 @@ def run_task(name, harness, root=None, setup=None, allow_raise=None, both=False,
     # axes are uninterpreted, so a failed obligation may be an artefact of the
     # abstraction; re-run with small concrete dimensions (sums unrolled
     # exactly) and keep 'failed' only if it fails there too.
-    failed = [o for o in res.obligations.values() if o["verdict"] == "failed" and not any(p.startswith("canary") for p in o["name"].split("."))]
-    if failed and shared.used_dims:
-        shared.concrete_dims = {}
-        shared.houdini_dead = {}
-        res2 = TaskResult(name)
-        explore(shared, harness, res2, allow_raise=allow_raise)
-        for o in failed:
-            o2 = res2.obligations.get(o["name"])
-            if o2 is None or o2["verdict"] == "discharged":
-                o["verdict"] = "undecided"
-                o["detail"] = "[not confirmed on concrete sizes %s: symbolic-sum abstraction too weak] %s" % (shared.concrete_dims, o.get("detail"))
-            elif o2["verdict"] == "failed":
-                o["detail"] = "[confirmed on concrete sizes %s] %s" % (shared.concrete_dims, o2.get("detail"))
-                o["model"] = dict(o2.get("model") or {}, **{f"dim:{k}": v for k, v in shared.concrete_dims.items()})
+    cand = [o for o in res.obligations.values() if o["verdict"] in ("failed", "undecided") and not any(p.startswith("canary") for p in o["name"].split("."))]
+    if cand and shared.used_dims:
+        # several concrete size assignments: consecutive distinct sizes, and powers of two (so that
+        # divisibility relations between sizes occur, e.g. "sample count is a multiple of the batch size")
+        confirmed = {}
+        passed_all = {o["name"]: True for o in cand}
+        for scheme in ("consecutive", "powers"):
+            shared.concrete_dims = {}
+            shared.dim_scheme = scheme
+            shared.houdini_dead = {}
+            res2 = TaskResult(name)
+            explore(shared, harness, res2, allow_raise=allow_raise)
+            for o in cand:
+                o2 = res2.obligations.get(o["name"])
+                if o2 is not None and o2["verdict"] == "failed" and o["name"] not in confirmed:
+                    confirmed[o["name"]] = (dict(shared.concrete_dims), o2)
+                if o2 is None or o2["verdict"] != "discharged":
+                    passed_all[o["name"]] = passed_all[o["name"]] and (o2 is None)
+            if len(confirmed) == len(cand):
+                break
+        for o in cand:
+            if o["name"] in confirmed:
+                dims, o2 = confirmed[o["name"]]
+                o["verdict"] = "failed"
+                o["backend"] = o2.get("backend", o["backend"])
+                o["detail"] = "[confirmed on concrete sizes %s] %s" % (dims, o2.get("detail"))
+                o["model"] = dict(o2.get("model") or {}, **{f"dim:{k}": v for k, v in dims.items()})
                 o["smt2"] = o2.get("smt2")
+                o["path"] = o2.get("path")
+            elif o["verdict"] == "failed":
+                o["verdict"] = "undecided"
+                o["detail"] = "[not confirmed on concrete sizes: symbolic-sum abstraction too weak] %s" % (o.get("detail"),)
         shared.concrete_dims = None
     res.functions = dict(shared.loader.entered)
     res.lib_used = set(shared.lib.used)
